@@ -218,7 +218,8 @@ func c12(c *Ctx) {
 	c.Explanation = "C12 (instance cache answers every lookup once and never forgets good data on error): the lookup dispatcher answers every source of a batch (loop shape), keeps every submitted source until the lookup and charges the rate limiter once per provider call; handleInstanceInfo always stores an entry, keeps the old instance when the new result is nil and passes every answer on; the positive/negative gauges change by exactly class(new entry) - class(old entry) in each of the six nil-ness cases (abstract evaluation), and by -1 of the right gauge for each idle eviction; cache writes happen only on the Run goroutine under the write lock and foreign reads under the read lock; the refresh checks idle before TTL."
 	c.NotDecided = []string{"clock-dependent refresh / TTL / idle behaviour over histories", "the provider's own behaviour"}
 
-	ld := w.Func(P, "(*cloudProviderLookupDispatcher).doLookup")
+	// (doLookup may have been written into run, its only caller: the same facts are then looked for there)
+	ld, ldHosted := w.FuncOrHost(P, "(*cloudProviderLookupDispatcher).doLookup")
 	lr := w.Func(P, "(*cloudProviderLookupDispatcher).run")
 	hi := w.Func(P, "(*CachedCloudProvider).handleInstanceInfo")
 	dr := w.Func(P, "(*CachedCloudProvider).doRefresh")
@@ -244,12 +245,54 @@ func c12(c *Ctx) {
 		if !r.Check("doLookup:one-provider-call", n == 1 && inst != nil, ld.Pos(), fmt.Sprintf("%d provider calls", n)) {
 			return
 		}
-		r.Check("doLookup:whole-batch", paramIndex(ld, inst.Call.Args[1]) == 2, inst.Pos(), "the provider is asked for exactly the batch")
+		// "the batch": doLookup's slice parameter, or - in run - the slice the received sources are appended to
+		var batchRoot ssa.Value // the append that grows the batch (hosted form)
+		if ldHosted {
+			eachInstr(ld, func(in ssa.Instruction) {
+				if cl, ok := in.(*ssa.Call); ok && isCall(cl, "builtin append") {
+					for _, el := range varargElems(cl.Call.Args[1]) {
+						if ex, ok := el.(*ssa.Extract); ok {
+							if _, isSel := ex.Tuple.(*ssa.Select); isSel {
+								batchRoot = cl
+							}
+						}
+					}
+				}
+			})
+		}
+		var isBatch func(v ssa.Value, d int) bool
+		isBatch = func(v ssa.Value, d int) bool {
+			if !ldHosted {
+				return paramIndex(ld, v) == 2
+			}
+			if d > 6 || v == nil || batchRoot == nil {
+				return false
+			}
+			if v == batchRoot {
+				return true
+			}
+			switch x := v.(type) {
+			case *ssa.Phi:
+				for _, e := range x.Edges {
+					if isBatch(e, d+1) {
+						return true
+					}
+				}
+			case *ssa.Slice:
+				return isBatch(x.X, d+1)
+			}
+			return false
+		}
+		r.Check("doLookup:whole-batch", isBatch(inst.Call.Args[1], 0), inst.Pos(), "the provider is asked for exactly the batch")
 		// loop over ips; one send per iteration or return on cancel
 		var sel *ssa.Select
 		eachInstr(ld, func(in ssa.Instruction) {
 			if s, ok := in.(*ssa.Select); ok {
-				sel = s
+				for _, st := range s.States {
+					if st.Send != nil && strings.HasSuffix(pathOf(st.Chan), ".infoSink") {
+						sel = s
+					}
+				}
 			}
 		})
 		if sel == nil {
@@ -292,7 +335,7 @@ func c12(c *Ctx) {
 							// ip is an element of the batch parameter selected by the loop counter
 							okElem := false
 							if ld2, isLd := ip.(*ssa.UnOp); isLd && ld2.Op == token.MUL {
-								if ia, isIA := ld2.X.(*ssa.IndexAddr); isIA && paramIndex(ld, ia.X) == 2 {
+								if ia, isIA := ld2.X.(*ssa.IndexAddr); isIA && isBatch(ia.X, 0) {
 									if ph, isPhi := ia.Index.(*ssa.Phi); isPhi && isLoopHead(ph.Block()) {
 										okElem = true
 									} else if b := asBinOp(ia.Index, token.ADD); b != nil {
@@ -333,7 +376,11 @@ func c12(c *Ctx) {
 		var recvSel *ssa.Select
 		eachInstr(lr, func(in ssa.Instruction) {
 			if s, ok := in.(*ssa.Select); ok {
-				recvSel = s
+				for _, st := range s.States {
+					if st.Send == nil && strings.HasSuffix(pathOf(st.Chan), ".ipSource") {
+						recvSel = s
+					}
+				}
 			}
 		})
 		okApp := false
@@ -365,6 +412,9 @@ func c12(c *Ctx) {
 				look = cl
 			}
 		}
+		if ldHosted {
+			look = inst // the lookup itself stands in run
+		}
 		okReset := look != nil
 		eachInstr(lr, func(in ssa.Instruction) {
 			if sl, ok := in.(*ssa.Slice); ok {
@@ -380,7 +430,10 @@ func c12(c *Ctx) {
 			// the slice handed to doLookup is the variable the received sources are appended to
 			okBatch := false
 			if batchApp != nil {
-				arg := look.(ssa.CallInstruction).Common().Args[2]
+				arg := look.(ssa.CallInstruction).Common().Args[len(look.(ssa.CallInstruction).Common().Args)-1]
+				if !ldHosted {
+					arg = look.(ssa.CallInstruction).Common().Args[2]
+				}
 				var derives func(v ssa.Value, d int) bool
 				seenB := map[ssa.Value]bool{}
 				derives = func(v ssa.Value, d int) bool {
